@@ -432,6 +432,22 @@ func (e *absEnv) binop(op token.Token, a, b aval) aval {
 				if y != 0 {
 					return x / y
 				}
+			case token.SHL:
+				if y >= 0 && y < 63 {
+					return x << uint(y)
+				}
+			case token.SHR:
+				if y >= 0 && y < 63 {
+					return x >> uint(y)
+				}
+			case token.OR:
+				return x | y
+			case token.AND:
+				return x & y
+			case token.XOR:
+				return x ^ y
+			case token.AND_NOT:
+				return x &^ y
 			case token.EQL:
 				return abool(x == y)
 			case token.NEQ:
